@@ -497,7 +497,6 @@ func (g *TreeGen) commentText() string {
 		return "looks like code: x := 1; }"
 	case 3:
 		t := genBytes(r, 14)
-		t = strings.ReplaceAll(t, "*/", "* /")
 		// (carriage returns stay: the Go scanner drops them from comments, the text goes on to
 		// the end of the line — the survival test compares without them)
 		t = strings.ReplaceAll(t, "\x00", "")
@@ -510,6 +509,12 @@ func (g *TreeGen) commentText() string {
 			t = strings.ReplaceAll(t, "''", "' '")
 		}
 		t = strings.ReplaceAll(t, "\ufeff", "")
+		// the property's domain excludes texts containing the closing marker — checked LAST:
+		// removing a NUL, an invalid byte or a BOM from between `*` and `/` would re-create it
+		// (false alarm of the sixth thorough run, seed 17: `/*\x00/*`)
+		for strings.Contains(t, "*/") {
+			t = strings.ReplaceAll(t, "*/", "* /")
+		}
 		if strings.HasPrefix(t, "//") || strings.HasPrefix(t, "/*") {
 			t = " " + t
 		}
